@@ -15,6 +15,7 @@ import (
 	"github.com/shaardie/clemens/pkg/position"
 	"github.com/shaardie/clemens/pkg/search"
 	"github.com/shaardie/clemens/pkg/search/transpositiontable"
+	"github.com/shaardie/clemens/pkg/types"
 )
 
 // countCtx reports done from the `at`-th poll on (0-based); at < 0: never.
@@ -191,7 +192,7 @@ func searchOps(o *Out, seed uint64, n int, tier string, corpus string) {
 		if rng.Intn(3) == 0 {
 			fen := ps.randomMaterial()
 			q, err := position.NewFromFen(fen)
-			if err != nil || !checkShape(q) || len(legalMoves(q)) == 0 {
+			if err != nil || !checkShape(q) || q.IsInCheck(types.SwitchColor(q.SideToMove)) || len(legalMoves(q)) == 0 {
 				continue
 			}
 			p = *q
@@ -204,35 +205,94 @@ func searchOps(o *Out, seed uint64, n int, tier string, corpus string) {
 		})
 		games = append(games, game{start, last})
 	}
-	maxDepth := 3
+	// positions in which the side to move can mate at once (for C13), found among corpus and playout positions
+	var matePool []game
+	isMateInOne := func(p *position.Position) (res bool) {
+		defer func() {
+			if recover() != nil {
+				res = false
+			}
+		}()
+		if p.IsInCheck(types.SwitchColor(p.SideToMove)) {
+			return false
+		}
+		for _, lm := range legalMoves(p) {
+			q := lm.pos
+			if q.IsInCheck(q.SideToMove) && len(legalMoves(&q)) == 0 {
+				return true
+			}
+		}
+		return false
+	}
+	for _, g := range games {
+		s, ok := setupSearch(g.pos, g.moves)
+		if ok && isMateInOne(&s.Pos) {
+			matePool = append(matePool, g)
+		}
+	}
+	for tries := 0; len(matePool) < 12 && tries < 400; tries++ {
+		fen := ps.randomMaterial()
+		q, err := position.NewFromFen(fen)
+		if err != nil || !checkShape(q) || q.IsInCheck(types.SwitchColor(q.SideToMove)) {
+			continue
+		}
+		ps.playout(fen, *q, 8, func(r *position.Position, _ string, mv []string) bool {
+			if isMateInOne(r) {
+				matePool = append(matePool, game{hexOf(fen), append([]string{}, mv...)})
+				return false
+			}
+			return true
+		})
+	}
+	o.StatN("mate_in_one_pool", len(matePool))
 	count := 0
+	unit := 0
 	for count < n {
+		unit++
 		k := 1 + rng.Intn(3)
 		var parts []string
 		var judges []string
 		transpositiontable.Reset()
+		mateUnit := unit%3 == 0 && len(matePool) > 0
+		deepUnit := unit%4 == 1 // Go-only searches to depth 4..5, judged by the spec
 		for i := 0; i < k; i++ {
 			g := games[rng.Intn(len(games))]
-			if i > 0 && rng.Intn(2) == 0 {
-				// same game again: the tables now hold what the previous search left
-				g = games[rng.Intn(len(games))]
+			depth := 1 + rng.Intn(3)
+			cancelAt := -1
+			if rng.Intn(2) == 0 {
+				cancelAt = rng.Intn(400)
+				if rng.Intn(3) == 0 {
+					cancelAt = rng.Intn(4)
+				}
 			}
-			depth := 1 + rng.Intn(maxDepth)
-			if tier == "thorough" && rng.Intn(6) == 0 {
+			if mateUnit {
+				g = matePool[rng.Intn(len(matePool))]
+				if i < k-1 && len(g.moves) > 0 {
+					// first search the position one move earlier: its tables are what the mate search then finds
+					g = game{g.pos, g.moves[:len(g.moves)-1]}
+					depth = 2 + rng.Intn(3)
+					cancelAt = -1
+				} else {
+					cancelAt = []int{-1, 0, 0, 1, 2, 3, 7, 40}[rng.Intn(8)]
+					if len(g.moves) == 0 && rng.Intn(2) == 0 {
+						// half-move clock at the fifty-move boundary
+						b, _ := hexDecode(g.pos)
+						g = game{hexOf(withField(string(b), 4, []string{"98", "99", "100"}[rng.Intn(3)])), nil}
+					}
+				}
+				o.Stat("mate_in_one_searches")
+			} else if deepUnit {
+				depth = 4 + rng.Intn(2)
+				cancelAt = -1
+				if rng.Intn(3) == 0 {
+					cancelAt = 500 + rng.Intn(20000)
+				}
+			} else if tier == "thorough" && rng.Intn(6) == 0 {
 				depth = 4
 			}
 			s, ok := setupSearch(g.pos, g.moves)
 			if !ok {
 				continue
-			}
-			// first run uncancelled on a scratch table state? no: choose the cancellation point from a dry run of the same state
-			cancelAt := -1
-			if rng.Intn(2) == 0 {
-				// dry run to learn the number of polls; the tables are then reset and the prefix replayed by the driver anyway
-				cancelAt = rng.Intn(400)
-				if rng.Intn(3) == 0 {
-					cancelAt = rng.Intn(4)
-				}
 			}
 			r := runSearch(s, depth, cancelAt)
 			if r.timedOut || r.panicked {
@@ -244,7 +304,6 @@ func searchOps(o *Out, seed uint64, n int, tier string, corpus string) {
 				pvs = strings.Join(r.pvs, ";")
 			}
 			judges = append(judges, strings.Join(strings.Fields(fmt.Sprintf("judge %s %d %s %s %s", g.pos, len(g.moves), strings.Join(g.moves, " "), r.best.String(), pvs)), " "))
-			// Go-side C05 assertions of this run
 			// once the cancellation has been noticed no further node may be visited, except for the single
 			// depth-1 fallback search when no iteration had produced an answer yet
 			stopnow := !r.cut || r.completed == 0 || r.nodes == r.nodesAtCut
@@ -259,7 +318,9 @@ func searchOps(o *Out, seed uint64, n int, tier string, corpus string) {
 		if len(parts) == 0 {
 			continue
 		}
-		o.Run(fmt.Sprintf("search %d %s", len(parts), strings.Join(strings.Fields(strings.Join(parts, " ")), " ")))
+		if !deepUnit {
+			o.Run(fmt.Sprintf("search %d %s", len(parts), strings.Join(strings.Fields(strings.Join(parts, " ")), " ")))
+		}
 		for _, j := range judges {
 			o.Run(j)
 		}
